@@ -92,3 +92,12 @@ func unixProcAttrFauxTTY() *syscall.SysProcAttr {
 		//Pgid: 0, // Child's process group ID if Setpgid.
 	}
 }
+
+// signalExitNum returns the exit number for a process that was terminated by a
+// signal: 128 + signal number, the convention used by POSIX shells.
+func signalExitNum(ps *os.ProcessState) int {
+	if ws, ok := ps.Sys().(syscall.WaitStatus); ok && ws.Signaled() {
+		return 128 + int(ws.Signal())
+	}
+	return 1
+}
